@@ -18,6 +18,20 @@ class ToolError(Exception):
     pass
 
 
+class HarnessCrash(ToolError):
+    """The harness process was killed by SIGSEGV / SIGABRT / SIGBUS / SIGILL / SIGFPE while it was driving the code under
+    test: on the unchanged tree this never happens, so it is the code under test corrupting memory (double free, use after
+    free, out-of-bounds slot ...) or aborting. bin/check reports it as a violation (key crash:<harness>:<mode>) unless the
+    check module handles crashes itself (run_stimuli, h_pool / h_poolcb / h_alloc supervisors)."""
+
+    def __init__(self, name, args, rc, stderr):
+        ToolError.__init__(self, "harness %s %s was killed by signal %d\n%s" % (name, args, -rc, (stderr or "")[-2000:]))
+        self.name, self.hargs, self.rc, self.stderr = name, [str(a) for a in args], rc, (stderr or "")[-2000:]
+
+
+CRASH_SIGNALS = (-4, -6, -7, -8, -11)
+
+
 def log(*a):
     print("[verif]", *a, file=sys.stderr, flush=True)
 
@@ -196,6 +210,8 @@ def run_bin(name, args, timeout=600, env=None, stdin=None, check=True, cwd=None)
                            errors="replace")
     except subprocess.TimeoutExpired:
         raise ToolError("harness %s %s timed out after %ds" % (name, args, timeout))
+    if check and p.returncode in CRASH_SIGNALS:
+        raise HarnessCrash(name, args, p.returncode, p.stderr)
     if check and p.returncode != 0:
         raise ToolError("harness %s %s failed rc=%s\n%s\n%s" % (name, args, p.returncode, p.stdout[-2000:],
                                                                  p.stderr[-4000:]))
